@@ -100,7 +100,9 @@ def entryOf (timeout : Int) (pc : Opaque "net.PacketConn") (ck : Opaque "shadows
   { Code.natconn.zero with PacketConn := pc, cryptoKey := ck, metrics := cm, defaultTimeout := timeout }
 
 theorem get_tie (m : Code.natmap) (k : String) : Code.natmap.Get m k = some (m, m.keyConn.get? k) := by
-  unfold Code.natmap.Get; rfl
+  unfold Code.natmap.Get
+  have hc := contains_iff_get? m.keyConn k
+  cases hg : m.keyConn.get? k <;> simp_all [GoMap.contains]
 
 theorem set_tie (m : Code.natmap) (k : String) (pc : Opaque "net.PacketConn") (ck : Opaque "shadowsocks.EncryptionKey")
     (cm : Opaque "service.UDPConnMetrics") :
